@@ -566,8 +566,9 @@ class Screen(BaseScreen, RealTerminal):
             return self._attrspec_to_escape(AttrSpec("default", "default"))
 
         def using_standout_or_underline(a: AttrSpec | str) -> bool:
+            # attributes that are visible on blank cells and that "erase to end of line" does not paint
             a = self._pal_attrspec.get(a, a)
-            return isinstance(a, AttrSpec) and (a.standout or a.underline)
+            return isinstance(a, AttrSpec) and (a.standout or a.underline or a.strikethrough)
 
         encoding = util.get_encoding()
 
